@@ -10,16 +10,46 @@
 package main
 
 import (
+	"fmt"
 	"os"
+	"strconv"
+	"strings"
+	"time"
 
 	"verif/lib/harness"
 )
+
+// memoryValve ends the process (exit 2: broken check, never a verdict) when its resident
+// set passes 12 GiB. The round-trip layers decode in this process; on a tree where the
+// decoder still sizes buffers from wire fields, a regression that makes it misread a
+// length would otherwise let the race runtime touch tens of GiB of shadow memory and
+// invite the kernel's OOM killer. /proc is read instead of runtime.MemStats because the
+// latter has to stop the world, which waits for the very allocation it should catch.
+func memoryValve() {
+	const limitPages = (12 << 30) / 4096
+	for {
+		time.Sleep(20 * time.Millisecond)
+		b, err := os.ReadFile("/proc/self/statm")
+		if err != nil {
+			return
+		}
+		f := strings.Fields(string(b))
+		if len(f) < 2 {
+			return
+		}
+		if rss, _ := strconv.ParseInt(f[1], 10, 64); rss > limitPages {
+			fmt.Printf("HARNESS-ERROR: C08 monitor process resident set passed 12 GiB (%d pages): a decode in the round-trip layers allocated out of all proportion; aborting before the OOM killer does\n", rss)
+			os.Exit(2)
+		}
+	}
+}
 
 func main() {
 	if os.Getenv(childEnv) != "" {
 		childMain()
 		return
 	}
+	go memoryValve()
 	harness.Main("C08", "exploration",
 		harness.Layer{Name: "static", Run: layerStatic},
 		harness.Layer{Name: "dynamic", Run: layerDynamic},
